@@ -107,6 +107,18 @@ def instance(name, tier, rng):
                         continue        # the manual double-board tree (80k states) and the tournament double board: thorough tier
                     cfgs.append({'cfg': cfg(2, st, 'No-limit', [0, 0], [1, 2], 0, (2, 3), ['StandardHigh'], range(52), autos, tour,
                                              boards0=boards0, werr=True), 'decks': dk})
+    elif name == 'runoutlate':
+        counts = 0
+        st = [street(False, [False, False], 0, False, 'Position', 2, -1), street(True, [], 3, False, 'Position', 2, -1),
+              street(True, [], 1, False, 'Position', 2, -1)]
+        dk = [rng.sample(range(52), 52)]
+        # deeper stacks: the players can also get all-in on the flop (the second-to-last street) with the run-out choice offered there,
+        # not only before the flop (stacks 2 and 3 are all-in as soon as the big blind is called)
+        full = ['Ante posting', 'Bet collection', 'Blind or straddle posting', 'Card burning', 'Hole dealing', 'Board dealing',
+                'Hand killing', 'Chips pushing', 'Chips pulling']
+        for tour in ((False,) if q else (False, True)):
+            cfgs.append({'cfg': cfg(2, st, 'No-limit', [0, 0], [1, 2], 0, (4, 5), ['StandardHigh'], range(52), full, tour, boards0=1, werr=True),
+                         'decks': dk})
     elif name == 'hilo':
         # split pots: two hand types (high, eight-or-better low), two starting boards, side pots - everything the award rule splits over
         low = [48, 0, 4, 9, 13, 25, 44, 45, 50, 2, 6, 43, 49, 1]       # Ac 2c 3c 4d 5d 8d Kc Kd Ah 2h 3h Qs Ad 2d
@@ -256,7 +268,7 @@ def replay_behaviour(tid, inst, beh, probe_level=None):
 MC_FOR = {
     'C01': ['kuhn', 'miniflop'], 'C02': ['miniflop', 'hilo', 'runout'], 'C03': ['miniflop', 'ministud', 'betting'], 'C06': ['minidraw', 'kuhn'],
     'C07': ['kuhn', 'ministud', 'minidraw'], 'C08': ['kuhn', 'minidraw'], 'C09': ['kuhn', 'ministud'], 'C10': ['ministud', 'minidraw'],
-    'C12': ['miniflop', 'hilo'], 'C13': ['ministud', 'blindlayouts'], 'C14': ['runout'], 'C15': ['kuhn', 'minidraw'],
+    'C12': ['miniflop', 'hilo'], 'C13': ['ministud', 'blindlayouts'], 'C14': ['runout', 'runoutlate'], 'C15': ['kuhn', 'minidraw'],
 }
 # which model-level invariants / properties decide which property (C09, C12: see DESIGN - decided by the conformance part; the
 # instances still provide the behaviours that are replayed into the code)
@@ -277,9 +289,9 @@ def mc_part(run: Run, prop: str, replay_max=None):
         replay_max = (250 if probing else 500) if run.tier == 'quick' else (3000 if probing else 6000)
     for name in MC_FOR[prop]:
         inst = instance(name, run.tier, random.Random(run.seed * 17 + len(name)))
-        huge = name in ('minidraw', 'runout', 'miniflop')
+        huge = name in ('minidraw', 'runout', 'runoutlate', 'miniflop')
         if run.tier == 'quick':
-            emitk = '10' if name in ('minidraw', 'runout') else '1'
+            emitk = '10' if name in ('minidraw', 'runout') else '2' if name == 'runoutlate' else '1'
         else:
             emitk = '100' if huge else '10' if name in ('ministud', 'kuhn') else '1'
         r = run_instance(run, name, inst, emit=True, timeout=3000 if run.tier == 'quick' else 14000, emitk=emitk)
